@@ -194,6 +194,12 @@ func (e *kvElection) Start(ctx context.Context) error {
 	if e.ctx != nil && e.ctx.Err() == nil {
 		return ErrAlreadyStarted
 	}
+	// A previous run that was ended through its caller's context gives up its claim
+	// asynchronously; until it has, the election cannot be started again (a new run
+	// would inherit a claim that nobody refreshes).
+	if e.isLeader.Load() {
+		return ErrAlreadyStarted
+	}
 
 	e.ctx, e.cancel = context.WithCancel(ctx)
 
